@@ -468,7 +468,16 @@ def build_handler(prog: dict, rec: Recorder):
         run_nodes(context, prog["nodes"], "", obs)
         if prog.get("final_large"):
             return ["F" * (6 * 1024 * 1024), obs]
-        if prog.get("final_raise_large"):
+        frl = prog.get("final_raise_large")
+        if frl == "escape":
+            # 4 MiB of text whose JSON encoding (escaped quotes and newlines) is 8 MiB
+            raise UserError('"\n' * (2 * 1024 * 1024))
+        if frl == "unicode":
+            raise UserError("\u00e9" * (2 * 1024 * 1024))      # 2 Mi characters, 12 MiB as \uXXXX escapes
+        if frl == "boundary":
+            # the message alone is below the limit, the encoded FAILED response (message + envelope) is above it
+            raise UserError("E" * (6 * 1024 * 1024 - 50 - 40))
+        if frl:
             raise UserError("E" * (6 * 1024 * 1024))
         if prog.get("final_raise"):
             raise UserError("handler raises")
